@@ -215,19 +215,28 @@ func (t *taskState) reuseDecodeAlias(i int, po *prepOp, in []byte) {
 	} else {
 		t.probe("target_reused")
 	}
-	if po.op.Self && po.ti.T.Kind() == reflect.Struct {
+	selfField := -1
+	if po.op.Self && po.ti.T.Kind() == reflect.Struct && len(in) > 0 {
 		// peeling nested frames: the bytes to decode are what the target's own byte-slice
 		// field holds (the same memory, not a copy)
 		for f := 0; f < po.ti.T.NumField(); f++ {
 			sf := po.ti.T.Field(f)
-			if sf.PkgPath == "" && sf.Type.Kind() == reflect.Slice && sf.Type.Elem().Kind() == reflect.Uint8 {
+			if sf.PkgPath == "" && sf.Type == reflect.TypeOf([]byte(nil)) {
 				tgt.Elem().Field(f).SetBytes(in)
+				selfField = f
 				t.probe("fault:input_is_the_targets_own_byte_slice")
 				break
 			}
 		}
 	}
 	err := p.Unmarshal(in, tgt.Interface())
+	if selfField >= 0 {
+		// if the data did not carry that field it still holds what the caller put there:
+		// the caller's own doing, dropped before the value is examined
+		if fv := tgt.Elem().Field(selfField); fv.Len() == len(in) && fv.Pointer() == reflect.ValueOf(in).Pointer() {
+			fv.Set(reflect.Zero(fv.Type()))
+		}
+	}
 	// drop the previous snapshot of this slot
 	live := t.live[:0]
 	for _, lv := range t.live {
